@@ -144,7 +144,7 @@ func (c01) Gen(r *kern.Rng, tier string, idx int) *Trace {
 		}
 		if r.Pct(20) && sc.Level != -2 {
 			// sparse-file shape: the head length sweeps across the point where the token buffer fills
-			sc.Data.Kind, sc.Data.P1 = "head_run", r.Pick(20000, 70000)
+			sc.Data.Kind, sc.Data.P1, sc.Data.P2 = "head_run", r.Pick(20000, 70000), r.Pick(0, 7, 300)
 			sc.Data.Len = sc.Data.P1 + r.Pick(1, 2)*32767 - 350
 		}
 		sc.Ops = []scen.WOp{{K: "w", N: 1 << 30}, {K: "c"}}
